@@ -193,7 +193,7 @@ def run(ctx):
             for perm in perms:
                 text = "if in0 is t then " + " and ".join(E.prop_text(concl[k]) for k in perm) + E.weight_text(w, 3)
                 try:
-                    rule = fl.Rule.create(text, engine)
+                    rule = E.make_rule(fl, rnd, text, engine)
                 except Exception as ex:
                     ctx.violation(f"a grammatical consequent is rejected ({type(ex).__name__})", {"rule": text}, "loaded", repr(ex)[:200])
                     break
